@@ -332,6 +332,11 @@ def intersectMasks (masks : List (List Rat)) (thr cap : Rat) : Except String (Li
 def bincount (labels : List Nat) (n : Nat) : List Nat :=
   (List.range n).map (fun k => labels.count k)
 
+/-- `np.bincount` as one pass over the labels (what the driver runs; equal to `bincount`,
+    `bincountFast_eq` in Lemmas/C19B) -/
+def bincountFast (labels : List Nat) (n : Nat) : List Nat :=
+  (labels.foldl (fun (a : Array Nat) k => a.modify k (· + 1)) (Array.replicate n 0)).toList
+
 /-- first index of the maximum (`argmax`), scanning left to right -/
 def argmaxFrom : List Rat → Nat → Nat → Rat → Nat
   | [], _, best, _ => best
@@ -347,13 +352,13 @@ def largestCC (mask : List Rat) (labels : List Nat) (nb : Nat) : Except String (
   if nb = 0 then .error "error:valueError"
   else if nb = 1 then .ok (mask.map (fun x => decide (x ≠ 0)))
   else
-    let counts := (bincount labels (nb + 1)).zipIdx.map (fun ci => if ci.2 = 0 then (0 : Rat) else (ci.1 : Rat))
+    let counts := (bincountFast labels (nb + 1)).zipIdx.map (fun ci => if ci.2 = 0 then (0 : Rat) else (ci.1 : Rat))
     let l := argmax counts
     .ok (labels.map (fun k => decide (k = l)))
 
 /-- `threshold_connect_components` given the labels -/
 def thresholdCC (map : List Rat) (labels : List Nat) (nb : Nat) (thr : Rat) : List Rat :=
-  let w := bincount labels (nb + 1)
+  let w := (bincountFast labels (nb + 1)).toArray
   List.zipWith (fun x k => if k ≠ 0 ∧ ((w.getD k 0 : Nat) : Rat) < thr then 0 else x) map labels
 
 /-- histogram threshold of `compute_mask` on the sorted values -/
